@@ -88,7 +88,25 @@ def _stage(specs_dir, names):
 
 
 def tlc_mc(spec, cfg, workers=NCPU, timeout=900, heap="12g", simulate=None, depth=None, extra=None, env=None, coverage=False):
-    """Model-check spec with cfg. Returns dict(states, distinct, ok, violated, out)."""
+    """Model-check spec with cfg. Returns dict(states, distinct, ok, violated, out).
+    An exhaustive run that took long and passed is remembered for six hours under a digest of all specification files and
+    the configuration (the result does not depend on the implementation): the thorough series of the properties that share
+    the big seat-manager model pay for it once."""
+    ckey = None
+    if simulate is None and not extra and not env and not coverage:
+        h = hashlib.sha1()
+        for f in sorted(os.listdir(SPEC)):
+            if f.endswith(".tla") or f == cfg:
+                h.update(f.encode())
+                h.update(open(os.path.join(SPEC, f), "rb").read())
+        ckey = os.path.join(OUT, "mccache", "%s-%s-%s.json" % (spec, cfg, h.hexdigest()[:16]))
+        try:
+            if time.time() - os.path.getmtime(ckey) < 6 * 3600:
+                res = json.load(open(ckey))
+                res["cached"] = True
+                return res
+        except Exception:
+            pass
     d = _stage(SPEC, None)
     try:
         cmd = _java(heap) + ["-metadir", os.path.join(d, "md"), "-workers", str(workers)]
@@ -132,6 +150,12 @@ def tlc_mc(spec, cfg, workers=NCPU, timeout=900, heap="12g", simulate=None, dept
         res["ok"] = (not res["violated"]) and res["error"] is None and (simulate is not None or "Model checking completed" in out or timed_out and simulate)
         if simulate and timed_out:
             res["ok"] = not res["violated"] and res["error"] is None
+        if ckey and res["ok"] and not timed_out and res["wall_s"] > 120:
+            try:
+                os.makedirs(os.path.dirname(ckey), exist_ok=True)
+                json.dump(dict(res, out=res["out"][-3000:]), open(ckey, "w"))
+            except Exception:
+                pass
         return res
     finally:
         shutil.rmtree(d, ignore_errors=True)
@@ -336,7 +360,8 @@ class Check:
         self.cov["transitions"] += res.get("states", 0)
         self.cov["models"].append({"what": what, "spec": res["spec"], "cfg": res["cfg"], "states_generated": res.get("states", 0),
                                    "distinct_states": res.get("distinct", 0), "wall_s": round(res["wall_s"], 1),
-                                   "completed": not res.get("timed_out", False)})
+                                   "completed": not res.get("timed_out", False),
+                                   "reused_from_cache_of_this_spec_digest": bool(res.get("cached"))})
 
     def violation(self, clause, payload):
         """payload may be a callable producing the replay case (evaluated only for the first few violations)."""
